@@ -413,6 +413,10 @@ def assign_styles(rnd, prog, p):
         # a decorator on an assigned TransitionList adds the callback to every transition of that list
         if deco_ok and rnd.random() < 0.5:
             prog["cbs"][c]["style"] = "decorator"
+        elif rnd.random() < 0.35 and prog["cbs"][c]["group"] not in ("cond", "unless"):
+            # a free callable (closure made by a factory) passed inline: it belongs to no provider
+            prog["cbs"][c]["style"] = "closure"
+            prog["cbs"][c]["sig"] = [P("args", "var"), P("kw", "varkw")]
         else:
             prog["cbs"][c]["style"] = "callable"
 
